@@ -798,6 +798,9 @@ type Data struct {
 
 	metadata   map[Schema][]byte
 	metadataMu sync.RWMutex
+
+	// updateMu serializes read-merge-write updates of annotations (storeAndUpdate).
+	updateMu sync.Mutex
 }
 
 // IsMutationRequest overrides the default behavior to specify POST /query as an immutable
@@ -1430,6 +1433,12 @@ func (d *Data) storeAndUpdate(ctx *datastore.VersionedCtx, keyStr string, newDat
 	if err != nil {
 		return err
 	}
+
+	// The stored annotation is read, merged with the request and written back: without serialization two
+	// concurrent partial updates of one key each merged into the old record and the later write dropped the
+	// other's fields (and left the in-memory copy and the store disagreeing).
+	d.updateMu.Lock()
+	defer d.updateMu.Unlock()
 
 	// get original data so we can handle default update and tell which values change for _user/_time fields.
 	origData, found, err := d.getStoreData(ctx, keyStr)
